@@ -40,13 +40,18 @@ use crate::{
 /// search. Versions visible to snapshots are preserved unless hidden by a newer
 /// version in the same visibility boundary.
 pub(crate) struct SnapshotTracker {
-	snapshots: Arc<SkipSet<u64>>,
+	/// Registered snapshots as `(seq_num, registration id)`. Several snapshots can share a
+	/// sequence number (transactions begun with no commit in between), so this is a
+	/// multiset: each registration is its own entry and each unregistration removes one.
+	snapshots: Arc<SkipSet<(u64, u64)>>,
+	next_id: Arc<std::sync::atomic::AtomicU64>,
 }
 
 impl Clone for SnapshotTracker {
 	fn clone(&self) -> Self {
 		Self {
 			snapshots: Arc::clone(&self.snapshots),
+			next_id: Arc::clone(&self.next_id),
 		}
 	}
 }
@@ -64,44 +69,34 @@ impl std::fmt::Debug for SnapshotTracker {
 }
 
 impl SnapshotTracker {
-	/// Creates a new empty snapshot tracker.
 	pub(crate) fn new() -> Self {
 		Self {
 			snapshots: Arc::new(SkipSet::new()),
+			next_id: Arc::new(std::sync::atomic::AtomicU64::new(0)),
 		}
 	}
 
-	/// Registers a new snapshot with the given sequence number.
-	///
-	/// Called when a new snapshot is created. The sequence number is added
-	/// to the tracking set, ensuring compaction will preserve versions
-	/// visible to this snapshot.
 	pub(crate) fn register(&self, seq_num: u64) {
-		self.snapshots.insert(seq_num);
+		let id = self.next_id.fetch_add(1, std::sync::atomic::Ordering::Relaxed);
+		self.snapshots.insert((seq_num, id));
 	}
 
-	/// Unregisters a snapshot with the given sequence number.
-	///
-	/// Called when a snapshot is dropped. Once all snapshots at or above
-	/// a certain sequence number are dropped, older versions become eligible
-	/// for garbage collection during compaction.
+	/// Removes one registration of `seq_num` (others at the same sequence number stay).
 	pub(crate) fn unregister(&self, seq_num: u64) {
-		self.snapshots.remove(&seq_num);
+		if let Some(entry) = self.snapshots.range((seq_num, 0)..=(seq_num, u64::MAX)).next() {
+			entry.remove();
+		}
 	}
 
-	/// Returns all active snapshots as a sorted vector.
-	///
-	/// This is the primary method used by compaction. The returned vector
-	/// is sorted in ascending order.
+	/// Distinct registered sequence numbers, ascending.
 	pub(crate) fn get_all_snapshots(&self) -> Vec<u64> {
-		self.snapshots.iter().map(|entry| *entry).collect()
+		let mut seqs: Vec<u64> = self.snapshots.iter().map(|entry| entry.0).collect();
+		seqs.dedup();
+		seqs
 	}
 
-	/// Returns the smallest active snapshot seq, if any. O(log N) via
-	/// `SkipSet::front`. Used by the commit oracle to compute its GC
-	/// watermark on every commit.
 	pub(crate) fn first(&self) -> Option<u64> {
-		self.snapshots.front().map(|e| *e.value())
+		self.snapshots.front().map(|e| e.value().0)
 	}
 }
 
@@ -920,11 +915,9 @@ pub(crate) struct SnapshotIterator<'a> {
 impl SnapshotIterator<'_> {
 	/// Creates a new iterator over a specific key range
 	fn new_from(core: Arc<Core>, seq_num: u64, range: InternalKeyRange) -> Result<Self> {
-		// Create a temporary snapshot to use the helper method
-		let snapshot = Snapshot {
-			core: Arc::clone(&core),
-			seq_num,
-		};
+		// Create a temporary snapshot to use the helper method. It must be registered
+		// like any other: dropping it at the end of this function unregisters one entry.
+		let snapshot = Snapshot::new(Arc::clone(&core), seq_num);
 		let iter_state = snapshot.collect_iter_state()?;
 
 		let merge_iter = KMergeIterator::new_from(iter_state, range);
